@@ -76,6 +76,15 @@ func c16Op(k int, pos int) []c16Rec {
 	case 17: // session (18) with unlisted fields: a second low-numbered known message
 		d := fitmodel.Def{Local: 6, Global: 18, Fields: []fitmodel.FieldDef{{Num: 202, Size: 2, Base: fitmodel.Uint16}, {Num: 200, Size: 1, Base: fitmodel.Uint8}}}
 		return []c16Rec{def(d), {b: fitmodel.Data(6, []byte{id, 0, 1}), isData: true, unkMsg: -1, unkFlds: []uint32{18<<8 | 202, 18<<8 | 200}}}
+	case 18: // a zero-size unlisted string field next to an unlisted one-byte field
+		d := fitmodel.Def{Local: 7, Global: 20, Fields: []fitmodel.FieldDef{{Num: 204, Size: 0, Base: fitmodel.String}, {Num: 205, Size: 1, Base: fitmodel.Uint8}}}
+		return []c16Rec{def(d), {b: fitmodel.Data(7, []byte{id}), isData: true, unkMsg: -1, unkFlds: []uint32{fk(204), fk(205)}}}
+	case 19: // two known messages whose numbers are equal modulo 256, each with the same unlisted field number
+		lo, hi := c16TiePair()
+		d1 := fitmodel.Def{Local: 13, Global: hi, Fields: []fitmodel.FieldDef{{Num: 200, Size: 1, Base: fitmodel.Uint8}}}
+		d2 := fitmodel.Def{Local: 14, Global: lo, Fields: []fitmodel.FieldDef{{Num: 200, Size: 1, Base: fitmodel.Uint8}}}
+		return []c16Rec{def(d1), {b: fitmodel.Data(13, []byte{id}), isData: true, unkMsg: -1, unkFlds: []uint32{uint32(hi)<<8 | 200}},
+			def(d2), {b: fitmodel.Data(14, []byte{id}), isData: true, unkMsg: -1, unkFlds: []uint32{uint32(lo)<<8 | 200}}}
 	case 13: // explicit timestamp on a known message (sets the time reference)
 		d := fitmodel.Def{Local: 2, Global: 20, Fields: []fitmodel.FieldDef{{Num: 253, Size: 4, Base: fitmodel.Uint32}, {Num: 3, Size: 1, Base: fitmodel.Uint8}}}
 		return []c16Rec{def(d), {b: fitmodel.Data(2, []byte{0x1E, 0xCA, 0x9A, 0x3B, id}), isData: true, unkMsg: -1}}
@@ -95,7 +104,18 @@ func c16Op(k int, pos int) []c16Rec {
 	panic("c16Op")
 }
 
-const c16Alpha = 18
+const c16Alpha = 20
+
+// c16TiePair: two known message numbers that are equal modulo 256.
+func c16TiePair() (uint16, uint16) {
+	p := prof()
+	for _, hi := range p.known {
+		if hi >= 256 && p.isKnown[hi&0xFF] {
+			return hi & 0xFF, hi
+		}
+	}
+	return 3, 20
+}
 
 // c16HighKnown: the smallest known message number >= 256 (its low byte collides with small numbers when a key is packed carelessly).
 func c16HighKnown() uint16 {
@@ -112,7 +132,7 @@ func c16HighKnown() uint16 {
 	return 20
 }
 
-var c16Names = []string{"K", "KU1", "KU2", "UAx2", "UBx2", "REDEF", "Zx2", "ZDEV", "DEV", "UNDEF", "BADDEF", "UZx2", "UDEV", "TS", "CK", "CU", "KHI", "KSES"}
+var c16Names = []string{"K", "KU1", "KU2", "UAx2", "UBx2", "REDEF", "Zx2", "ZDEV", "DEV", "UNDEF", "BADDEF", "UZx2", "UDEV", "TS", "CK", "CU", "KHI", "KSES", "ZSTR", "TIE"}
 
 type c16Replay struct {
 	Word    []int  `json:"word"`
@@ -126,7 +146,7 @@ func init() {
 	vx.Register(&vx.Prop{
 		ID:    "C16",
 		Level: "model_checking",
-		Rule: "all words of length <=3 (quick) / <=4 (thorough) over 18 record groups {known message; with 1 / 2 unlisted fields; two unknown messages; redefinition; zero-field definition without/with developer flag; developer fields; data for an undefined local type; bad definition; zero-field unknown message; unknown message with developer fields; explicit timestamp; known and unknown messages with compressed-timestamp headers} x every truncation offset x all 8 option combinations (logger x unknown fields x unknown messages). " +
+		Rule: "all words of length <=3 (quick) / <=4 (thorough) over 20 record groups {known message; with 1 / 2 unlisted fields; two unknown messages; redefinition; zero-field definition without/with developer flag; developer fields; data for an undefined local type; bad definition; zero-field unknown message; unknown message with developer fields; explicit timestamp; known and unknown messages with compressed-timestamp headers} x every truncation offset x all 8 option combinations (logger x unknown fields x unknown messages). " +
 			"Most groups (re)define the same local type 1, so that words also cover redefinition of a slot from a known message with unlisted fields to an unknown or field-less message. Oracle: content, error text and bytes consumed equal the option-free run; lists absent when the option is off, sorted without duplicates when on; on success equal to the model counters, on failure completed <= reported <= completed + record in progress. states = distinct model counter states; transitions = records; traces = decodes compared",
 		Run: runC16,
 		Replay: func(raw json.RawMessage) (string, error) {
